@@ -120,16 +120,22 @@ func streamAuthInterceptor(auth Authenticate, access Access) grpc.StreamServerIn
 				}
 				return handler(srv, w)
 			case "/gripql.Job/ListJobs":
-				//TODO: filter list of jobs
-				return handler(srv, ss)
+				return checkedStream(srv, ss, handler, access, user, MethodMap[info.FullMethod],
+					func(r *gripql.GraphID) string { return r.Graph })
 			case "/gripql.Job/ResumeJob":
-				//TODO: filter list of jobs
-				return handler(srv, ss)
+				return checkedStream(srv, ss, handler, access, user, MethodMap[info.FullMethod],
+					func(r *gripql.ExtendQuery) string { return r.Graph })
 			case "/gripql.Job/ViewJob":
-				//TODO: filter list of jobs
-				return handler(srv, ss)
+				return checkedStream(srv, ss, handler, access, user, MethodMap[info.FullMethod],
+					func(r *gripql.QueryJob) string { return r.Graph })
 			case "/gripql.Job/SearchJobs":
-				//TODO: filter list of jobs
+				return checkedStream(srv, ss, handler, access, user, MethodMap[info.FullMethod],
+					func(r *gripql.GraphQuery) string { return r.Graph })
+			case "/gripql.Query/ListTables":
+				// like ListGraphs: not tied to one graph
+				if err := access.Enforce(user, "*", Read); err != nil {
+					return status.Error(codes.PermissionDenied, "PermissionDenied")
+				}
 				return handler(srv, ss)
 			}
 			log.Errorf("Unknown streaming output: %#v", info)
@@ -149,6 +155,21 @@ func streamAuthInterceptor(auth Authenticate, access Access) grpc.StreamServerIn
 
 		return status.Error(codes.Unknown, "Unknown method")
 	}
+}
+
+// checkedStream reads the request of a server-streaming call, asks the policy
+// whether the user may perform op on the graph the request names and, if so,
+// runs the handler with the request put back in front of the stream.
+func checkedStream[X any](srv interface{}, ss grpc.ServerStream, handler grpc.StreamHandler,
+	access Access, user string, op Operation, graph func(*X) string) error {
+	w, err := NewStreamOutWrapper[X](ss)
+	if err != nil {
+		return status.Error(codes.Unknown, "Request error")
+	}
+	if err := access.Enforce(user, graph(&w.Request), op); err != nil {
+		return status.Error(codes.PermissionDenied, "PermissionDenied")
+	}
+	return handler(srv, w)
 }
 
 func getUnaryRequestGraph(req interface{}, info *grpc.UnaryServerInfo) (string, error) {
